@@ -3,7 +3,7 @@
 (`FnSEq.*` in lean/Proofs/FnS*.lean: generated accessor = model function of its defining inputs). Run after adding theorems."""
 import re, os
 ROOT = os.path.dirname(os.path.dirname(os.path.abspath(__file__)))
-HELP = ("s1_", "s2_", "s3_", "s4_", "s5_", "sb_", "sd_", "sf_")
+HELP = ("s1_", "s2_", "s3_", "s4_", "s5_", "s6_", "sb_", "sd_", "sf_")
 def thms(mod):
     src = open(os.path.join(ROOT, "lean/Proofs", mod + ".lean"), encoding="utf-8").read()
     names = re.findall(r"^(?:@\[simp\] )?theorem ([A-Za-z0-9_']+)", src, re.M)
@@ -13,6 +13,7 @@ PROPS = {
  "C11": ("two routes, one value: the `Lunar.GetTimeX` accessors and the hour object's (`LunarTime`) accessors, the eight-character object and the `Lunar` pillars are each tied to the SAME model function of the same indices; the two routes to the hour's suitable / avoid lists are the same decoder call", ["FnSBase", "FnS1", "FnS2", "FnS3", "FnSDecoders"]),
  "C18": ("attributes are functions of their defining inputs: each translated accessor equals a model function applied to the index fields named in its statement only", ["FnSBase", "FnS1", "FnS2", "FnS3", "FnSYearObj", "FnSDecoders"]),
  "C17": ("Taoist / Buddhist predicates and renderings of the regenerated code equal the model", ["FnSTaoFoto", "FnSRender", "FnSTaoDay"]),
+ "C12": ("fortune pillars: the regenerated `DaYun / XiaoYun / LiuNian / LiuYue .GetGanZhi` (and Xun / XunKong) equal the model's 60-cycle arithmetic from the month / hour / Lichun-year pillar, on every input (result, panic or out of fuel)", ["FnSFortune"]),
  "C13": ("festivals and seasonal names: the regenerated `Lunar.GetFestivals` reports New Year's Eve exactly under the coded rule (and nothing in the table is called 除夕); `GetHou` / `GetWuHou` equal the model", ["FnSLunarFest", "FnSHou"]),
  "C19": ("formatting: `%0wd`, `ToYmd`, `ToYmdHms` and the Chinese renderings of the regenerated code equal the model's renderings", ["FnSFmt", "FnSRender"]),
  "C16": ("nine-star object: every naming system (number, colour, element, position, Xuan Kong, Bei Dou, Qi Men, Tai Yi) reads its nine-entry table at the SAME index, is total on 0..8 and panics outside", ["FnSNineStarObj"]),
@@ -20,6 +21,7 @@ PROPS = {
  "C20": ("zodiac sign and civil festivals: the regenerated `GetXingZuo` equals the model's for all month / day integers; the regenerated `Solar.GetFestivals` is the model's fixed-date + k-th weekday + last-weekday list", ["FnSXingZuo", "FnSSolarFest"]),
 }
 PINS = {
+ "C12": ["calendar.LiuNian.GetGanZhi", "calendar.LiuYue.GetGanZhi"],
  "C13": ["calendar.Lunar.GetFestivals", "calendar.Lunar.GetHou", "calendar.Lunar.GetWuHou"],
  "C20": ["calendar.Solar.GetFestivals"],
  "C17": ["calendar.Tao.IsDaySanHui", "calendar.Tao.IsDaySanYuan", "calendar.Tao.IsDayWuLa", "calendar.Tao.IsDayBaJie"],
